@@ -44,13 +44,16 @@ def confirm(seed):
         shutil.copy(f"{seed}/demo.rs", f"{SCRATCH}/tests/demo.rs")
         rc, out = run("cargo test --offline --test demo 2>&1", cwd=SCRATCH, env=env)
         res["demo_fails_with_patch"] = rc != 0
-        rc2, out2 = run("cargo test --offline --release --test demo 2>&1", cwd=SCRATCH, env=env)
-        res["demo_fails_with_patch_release"] = rc2 != 0
+        need_release = rc == 0 or os.environ.get("SEED_FULL_CONFIRM")
+        if need_release:
+            rc2, out2 = run("cargo test --offline --release --test demo 2>&1", cwd=SCRATCH, env=env)
+            res["demo_fails_with_patch_release"] = rc2 != 0
         run("git checkout -- src", cwd=SCRATCH)
         rc, out = run("cargo test --offline --test demo 2>&1", cwd=SCRATCH, env=env)
         res["demo_passes_without_patch"] = rc == 0
-        rc2, out2 = run("cargo test --offline --release --test demo 2>&1", cwd=SCRATCH, env=env)
-        res["demo_passes_without_patch_release"] = rc2 == 0
+        if need_release:
+            rc2, out2 = run("cargo test --offline --release --test demo 2>&1", cwd=SCRATCH, env=env)
+            res["demo_passes_without_patch_release"] = rc2 == 0
         if rc != 0:
             res["demo_output_without_patch"] = out[-600:]
     finally:
@@ -128,6 +131,8 @@ def main():
     checks = [f"C{n:02d}" for n in range(1, 21)]
     if "--checks" in sys.argv:
         checks = sys.argv[sys.argv.index("--checks") + 1].split(",")
+    if "--own" in sys.argv:
+        checks = [sid.split("-")[0]]
     meta = json.load(open(f"{seed}/meta.json"))
     conf = confirm(seed)
     ok = conf.get("patch_applies") and conf.get("suite_passes_with_patch") and (conf.get("demo_fails_with_patch") or conf.get("demo_fails_with_patch_release")) and conf.get("demo_passes_without_patch") and conf.get("demo_passes_without_patch_release", True)
